@@ -104,6 +104,10 @@ def judge(P, case, mobs, iobs, known, sobs=None):
         return "unmodelled", ""
     problem = None
     if canon(mobs) != canon(iobs):
+        if sobs is not None and sobs not in ("UNMODELLED", "BADCASE") and P.spec_equal(sobs, iobs) and not P.spec_equal(sobs, mobs):
+            # the implementation agrees with the specification oracle (which does not depend on anything read from the source):
+            # it is the model - i.e. what the translator read - that is off; not a failing input of the implementation
+            return "modelbroken", "model answers %s where implementation and specification oracle agree on %s" % (mobs[:80], iobs[:80])
         problem = "implementation differs from the specification-equivalent model: expected %s, observed %s" % (mobs, iobs)
     elif canon(mobs) in ("TRAP", "DIVERGE"):
         problem = "implementation does not return: %s (model: %s)" % (iobs, mobs)
@@ -224,7 +228,8 @@ def run_property(P, tier, seed, replay=None):
     sobs = [None] * len(lines)
     for i, o in zip(sidx, sres):
         sobs[i] = o
-    stats = {"ok": 0, "unmodelled": 0, "known": 0, "violation": 0}
+    stats = {"ok": 0, "unmodelled": 0, "known": 0, "violation": 0, "modelbroken": 0}
+    first_modelbroken = None
     known_hit = {}
     nontrivial = set()
     viol_cases = []
@@ -237,8 +242,14 @@ def run_property(P, tier, seed, replay=None):
                 known_hit.setdefault(detail, (c, i))
             elif st == "violation":
                 viol_cases.append((bname, exe, c, m, i, detail))
+            elif st == "modelbroken" and first_modelbroken is None:
+                first_modelbroken = (c, detail)
             if st == "ok" and P.nontrivial(c, m):
                 nontrivial.add(c)
+
+    if stats["modelbroken"]:
+        broken.append("correspondence: the model (tables read from the source) disagrees with an implementation that agrees with the specification "
+                      "oracle on %d cases; first: %s (%s)" % (stats["modelbroken"], first_modelbroken[0][:200], first_modelbroken[1]))
 
     # 5. extraction cross-check inside coqc (a sample of the very same lines)
     xs = rng.sample(lines, min(len(lines), 60 if tier == "quick" else 300)) if lines else []
